@@ -272,4 +272,315 @@ theorem scanQuoted_rest_lt_aux (n : Nat) : ∀ (s raw rest : List Char), s.lengt
 theorem scanQuoted_rest_lt (s raw rest : List Char) (h : scanQuoted s = some (raw, rest)) :
     rest.length < s.length := scanQuoted_rest_lt_aux s.length s raw rest (Nat.le_refl _) h
 
+/-! ### un-quoting -/
+
+theorem unquote_plain (c : Char) (tail : List Char) (h : c ≠ '\\') :
+    unquote (c :: tail) = c :: unquote tail := by
+  cases tail with
+  | nil => simp [unquote]
+  | cons e r => simp [unquote, h]
+
+/-- `\"` and `\\` give the escaped character -/
+theorem unquote_esc (e : Char) (tail : List Char) (h : e = '"' ∨ e = '\\') :
+    unquote ('\\' :: e :: tail) = e :: unquote tail := by
+  rcases h with h | h <;> subst h <;> cases tail <;> simp [unquote, isOct]
+
+theorem unquote_escape (item : List Char) : unquote (escape item) = item := by
+  induction item with
+  | nil => simp [escape, unquote]
+  | cons a r ih =>
+    simp only [escape]
+    split
+    · rename_i h; rw [unquote_esc a _ h, ih]
+    · rename_i h; simp only [not_or] at h; rw [unquote_plain a _ h.2, ih]
+
+/-! ### one item -/
+
+theorem parseItem_quote (item rest : List Char) (h : ∀ c ∈ item, c ≠ '\n' ∧ c ≠ '\r') :
+    parseItem (quote item ++ rest) = some (item, rest) := by
+  simp only [quote, List.cons_append, List.append_assoc, parseItem, if_true]
+  simp only [List.nil_append]
+  rw [scanQuoted_escape item rest h]
+  simp [unquote_escape]
+
+theorem parseItem_bare (w rest : List Char) (hne : w ≠ []) (hw : ∀ c ∈ w, isWordChar c = true)
+    (hs : Stops rest) : parseItem (w ++ rest) = some (w, rest) := by
+  cases w with
+  | nil => exact absurd rfl hne
+  | cons a t =>
+    have : a ≠ '"' := word_ne_quote a (hw a (by simp))
+    simp only [List.cons_append, parseItem, this, if_false]
+    exact scanWord_append (a :: t) rest hne hw hs
+
+theorem parseItem_enc (item e rest : List Char) (he : IsEnc item e) (hok : okItem item = true)
+    (hs : e = item → Stops rest) : parseItem (e ++ rest) = some (item, rest) := by
+  rcases he with he | ⟨he, hne, hw⟩
+  · subst he; exact parseItem_quote item rest (okItem_char item hok)
+  · subst he; exact parseItem_bare e rest hne hw (hs rfl)
+
+theorem parseItem_rest_lt (s item rest : List Char) (h : parseItem s = some (item, rest)) :
+    rest.length < s.length := by
+  cases s with
+  | nil => simp [parseItem] at h
+  | cons c r =>
+    simp only [parseItem] at h
+    split at h
+    · cases hq : scanQuoted r with
+      | none => rw [hq] at h; simp at h
+      | some p =>
+        rw [hq] at h
+        simp only [Option.some.injEq, Prod.mk.injEq] at h
+        have := scanQuoted_rest_lt r p.1 p.2 hq
+        rw [← h.2]; simp; omega
+    · exact scanWord_rest_lt _ _ _ h
+
+theorem enc_head_not_ws (item e : List Char) (he : IsEnc item e) (tail : List Char) :
+    ∀ c, (e ++ tail).head? = some c → isWs c = false := by
+  intro c hc
+  rcases he with he | ⟨he, hne, hw⟩
+  · subst he; simp [quote] at hc; subst hc; decide
+  · subst he
+    cases e with
+    | nil => exact absurd rfl hne
+    | cons a t =>
+      simp at hc; subst hc; exact word_not_ws a (hw a (by simp))
+
+theorem isEnc_quoteIfNeeded (item : List Char) : IsEnc item (quoteIfNeeded item) := by
+  unfold quoteIfNeeded
+  split
+  · left; rfl
+  · rename_i h
+    right
+    simp only [needsQuote, Bool.or_eq_true, List.isEmpty_iff, List.any_eq_true, not_or, not_exists,
+      not_and, Bool.not_eq_true] at h
+    refine ⟨rfl, h.1, fun c hc => ?_⟩
+    have := h.2 c hc
+    cases hw : isWordChar c with
+    | true => rfl
+    | false => simp [hw] at this
+
+theorem quoteIfNeeded_notab (item : List Char) (h : okItem item = true) : '\t' ∉ quoteIfNeeded item := by
+  unfold quoteIfNeeded
+  split
+  · exact quote_notab item (okItem_notab item h)
+  · exact okItem_notab item h
+
+/-! ### the list -/
+
+/-- fuel beyond the length of the input does not matter -/
+theorem parseItems_fuel (f1 : Nat) : ∀ (f2 : Nat) (s : List Char), s.length < f1 → s.length < f2 →
+    parseItems f1 s = parseItems f2 s := by
+  induction f1 with
+  | zero => intro f2 s h; omega
+  | succ f1 ih =>
+    intro f2 s h1 h2
+    cases f2 with
+    | zero => omega
+    | succ f2 =>
+      simp only [parseItems]
+      cases hp : parseItem (skipWs s) with
+      | none => rfl
+      | some p =>
+        obtain ⟨item, rest⟩ := p
+        simp only
+        have hl1 := parseItem_rest_lt _ _ _ hp
+        have hl2 := skipWs_length_le s
+        cases hk : skipWs rest with
+        | nil => rfl
+        | cons c r =>
+          simp only
+          have hl3 := skipWs_length_le rest
+          rw [hk] at hl3; simp at hl3
+          split
+          · rw [ih f2 r (by omega) (by omega)]
+          · rfl
+
+/-- the fuel given by `parseAll` is never exhausted -/
+theorem parseItems_no_outOfFuel (f : Nat) : ∀ (s : List Char), s.length < f →
+    parseItems f s ≠ .error .outOfFuel := by
+  induction f with
+  | zero => intro s h; omega
+  | succ f ih =>
+    intro s h
+    simp only [parseItems]
+    cases hp : parseItem (skipWs s) with
+    | none => simp
+    | some p =>
+      obtain ⟨item, rest⟩ := p
+      simp only
+      have hl1 := parseItem_rest_lt _ _ _ hp
+      have hl2 := skipWs_length_le s
+      cases hk : skipWs rest with
+      | nil => simp
+      | cons c r =>
+        simp only
+        have hl3 := skipWs_length_le rest
+        rw [hk] at hl3; simp at hl3
+        split
+        · have := ih r (by omega)
+          cases hr : parseItems f r with
+          | ok l => simp
+          | error e => rw [hr] at this; simpa using this
+        · simp
+
+/-- an encoded item followed by a comma: parse it and go on -/
+theorem parseItems_step_ok (f : Nat) (item e tail : List Char) (l : List (List Char))
+    (he : IsEnc item e) (hok : okItem item = true) (h : parseItems f tail = .ok l) :
+    parseItems (f + 1) (e ++ ',' :: tail) = .ok (item :: l) := by
+  have hst : Stops (',' :: tail) := by intro c hc; simp at hc; subst hc; decide
+  simp only [parseItems]
+  rw [skipWs_of_head _ (enc_head_not_ws item e he _), parseItem_enc item e _ he hok (fun _ => hst)]
+  simp only
+  rw [skipWs_of_head (',' :: tail) (by intro c hc; simp at hc; subst hc; decide)]
+  simp only [if_true, h]
+
+theorem parseItems_step_err (f : Nat) (item e tail : List Char) (err : Err)
+    (he : IsEnc item e) (hok : okItem item = true) (h : parseItems f tail = .error err) :
+    parseItems (f + 1) (e ++ ',' :: tail) = .error err := by
+  have hst : Stops (',' :: tail) := by intro c hc; simp at hc; subst hc; decide
+  simp only [parseItems]
+  rw [skipWs_of_head _ (enc_head_not_ws item e he _), parseItem_enc item e _ he hok (fun _ => hst)]
+  simp only
+  rw [skipWs_of_head (',' :: tail) (by intro c hc; simp at hc; subst hc; decide)]
+  simp only [if_true, h]
+
+/-- an encoded item followed only by whitespace ends the list -/
+theorem parseItems_last (f : Nat) (item e ws : List Char) (he : IsEnc item e) (hok : okItem item = true)
+    (hws : ∀ c ∈ ws, isWs c = true) :
+    parseItems (f + 1) (e ++ ws) = .ok [item] := by
+  have hst : Stops ws := by
+    intro c hc
+    cases ws with
+    | nil => simp at hc
+    | cons a t => simp at hc; subst hc; exact isWs_not_word _ (hws _ (by simp))
+  simp only [parseItems]
+  rw [skipWs_of_head _ (enc_head_not_ws item e he _), parseItem_enc item e _ he hok (fun _ => hst)]
+  simp only
+  have : skipWs ws = [] := by
+    have := skipWs_append ws [] hws (by simp)
+    simpa using this
+  rw [this]
+
+theorem joinSep_cons_cons (sep : Char) (a b : List Char) (t : List (List Char)) :
+    joinSep sep (a :: b :: t) = a ++ sep :: joinSep sep (b :: t) := rfl
+
+/-- the round trip at the level of `parseItems`, for any admissible encoding of each item -/
+theorem parseItems_join (items : List (List Char)) (enc : List Char → List Char)
+    (henc : ∀ i ∈ items, IsEnc i (enc i)) (hok : ∀ i ∈ items, okItem i = true) (hne : items ≠ []) :
+    ∀ f, items.length ≤ f → parseItems f (joinSep ',' (items.map enc)) = .ok items := by
+  induction items with
+  | nil => exact absurd rfl hne
+  | cons a t ih =>
+    intro f hf
+    cases t with
+    | nil =>
+      cases f with
+      | zero => simp at hf
+      | succ f =>
+        have := parseItems_last f a (enc a) [] (henc a (by simp)) (hok a (by simp)) (by simp)
+        simpa [joinSep] using this
+    | cons b t =>
+      cases f with
+      | zero => simp at hf
+      | succ f =>
+        simp only [List.map_cons, joinSep_cons_cons]
+        have := ih (fun i hi => henc i (by simp [hi])) (fun i hi => hok i (by simp [hi])) (by simp) f
+          (by simp at hf ⊢; omega)
+        simp only [List.map_cons] at this
+        exact parseItems_step_ok f a (enc a) _ _ (henc a (by simp)) (hok a (by simp)) this
+
+/-- a tail that fails to parse still fails after any number of well-formed items -/
+theorem parseItems_prefix_error (pre : List (List Char)) (bad : List Char)
+    (hok : ∀ i ∈ pre, okItem i = true)
+    (hbad : ∀ f, parseItems (f + 1) bad = .error .valueError) :
+    ∀ f, parseItems (pre.length + f + 1) (prefixStr pre ++ bad) = .error .valueError := by
+  induction pre with
+  | nil => intro f; simpa [prefixStr] using hbad f
+  | cons a t ih =>
+    intro f
+    have := ih (fun i hi => hok i (by simp [hi])) f
+    simp only [prefixStr, List.append_assoc, List.cons_append, List.length_cons]
+    rw [show t.length + 1 + f + 1 = (t.length + f + 1) + 1 by omega]
+    exact parseItems_step_err _ a _ _ _ (isEnc_quoteIfNeeded a) (hok a (by simp)) this
+
+theorem prefixStr_notab (pre : List (List Char)) (hok : ∀ i ∈ pre, okItem i = true) :
+    '\t' ∉ prefixStr pre := by
+  induction pre with
+  | nil => simp [prefixStr]
+  | cons a t ih =>
+    simp only [prefixStr, List.mem_append, List.mem_cons, not_or]
+    exact ⟨quoteIfNeeded_notab a (hok a (by simp)), by decide, ih (fun i hi => hok i (by simp [hi]))⟩
+
+theorem prefixStr_length (pre : List (List Char)) : pre.length ≤ (prefixStr pre).length := by
+  induction pre with
+  | nil => simp
+  | cons a t ih => simp [prefixStr]; omega
+
+theorem joinSep_notab (l : List (List Char)) (h : ∀ e ∈ l, '\t' ∉ e) : '\t' ∉ joinSep ',' l := by
+  induction l with
+  | nil => simp [joinSep]
+  | cons a t ih =>
+    cases t with
+    | nil => simpa [joinSep] using h a (by simp)
+    | cons b t =>
+      rw [joinSep_cons_cons]
+      simp only [List.mem_append, List.mem_cons, not_or]
+      exact ⟨h a (by simp), by decide, ih (fun e he => h e (by simp [he]))⟩
+
+theorem joinSep_length (l : List (List Char)) : l.length ≤ (joinSep ',' l).length + 1 := by
+  induction l with
+  | nil => simp
+  | cons a t ih =>
+    cases t with
+    | nil => simp
+    | cons b t => rw [joinSep_cons_cons]; simp at ih ⊢; omega
+
+/-- an opening quote with no closing quote after it -/
+theorem scanQuoted_noClosing_aux (n : Nat) : ∀ s : List Char, s.length ≤ n → noClosingQuote s = true →
+    scanQuoted s = none := by
+  induction n with
+  | zero =>
+    intro s hn _
+    have : s = [] := List.eq_nil_of_length_eq_zero (by omega)
+    subst this; simp [scanQuoted]
+  | succ n ih =>
+    intro s hn h
+    match s, hn, h with
+    | [], _, _ => simp [scanQuoted]
+    | [c], _, h => simp [noClosingQuote] at h; simp [scanQuoted, h]
+    | c :: e :: r, hn, h =>
+      rw [scanQuoted_cons2]
+      simp only [noClosingQuote] at h
+      split at h
+      · simp at h
+      · rename_i hc
+        rw [if_neg hc]
+        split at h
+        · rename_i hb
+          rw [if_pos hb]
+          split
+          · rfl
+          · rw [ih r (by simp at hn; omega) h]; rfl
+        · rename_i hb
+          rw [if_neg hb]
+          split
+          · rfl
+          · rw [ih (e :: r) (by simp at hn ⊢; omega) h]; rfl
+
+theorem scanQuoted_noClosing (s : List Char) (h : noClosingQuote s = true) : scanQuoted s = none :=
+  scanQuoted_noClosing_aux s.length s (Nat.le_refl _) h
+
+theorem noClosingQuote_escape (item : List Char) : noClosingQuote (escape item) = true := by
+  induction item with
+  | nil => simp [escape, noClosingQuote]
+  | cons a r ih =>
+    simp only [escape]
+    split
+    · simp [noClosingQuote, ih]
+    · rename_i h
+      simp only [not_or] at h
+      cases hr : escape r with
+      | nil => simp [noClosingQuote, h.1]
+      | cons b t => rw [hr] at ih; simp [noClosingQuote, h.1, h.2, ih]
+
 end Oslo.Split
